@@ -220,6 +220,98 @@ SliceVal(left, l0, r0, noRight) ==
                     [] left.t = "nil" -> Nil
                     [] OTHER          -> Err("range index operator not supported")
 
+\* ---------------------------------------------------------------- library (extension functions)
+(* The part of the standard library that has a closed, deterministic meaning: each function is
+   an "extension" value found BEFORE the environment is searched (so a local variable cannot
+   shadow it and assigning to its name is an error), applied by the protocol of
+   eval.applyExtension: a true variadic (max = -1) spreads an array given as last argument,
+   then the argument count is checked, then each declared argument type (an integer is promoted
+   where a float is declared; "any" accepts everything), then the callback runs.
+   abs and keys are defined in grol itself in the root environment (plain values there).     *)
+ExtSigs ==
+  [sqrt  |-> [mn |-> 1, mx |-> 1,  ty |-> <<"float">>],
+   floor |-> [mn |-> 1, mx |-> 1,  ty |-> <<"float">>],
+   ceil  |-> [mn |-> 1, mx |-> 1,  ty |-> <<"float">>],
+   trunc |-> [mn |-> 1, mx |-> 1,  ty |-> <<"float">>],
+   round |-> [mn |-> 1, mx |-> 1,  ty |-> <<"float">>],
+   runes |-> [mn |-> 1, mx |-> 2,  ty |-> <<"str", "bool">>],
+   rune_len   |-> [mn |-> 1, mx |-> 1, ty |-> <<"str">>],
+   split      |-> [mn |-> 1, mx |-> 2, ty |-> <<"str", "str">>],
+   join       |-> [mn |-> 1, mx |-> 2, ty |-> <<"arr", "str">>],
+   trim       |-> [mn |-> 1, mx |-> 2, ty |-> <<"str", "str">>],
+   trim_left  |-> [mn |-> 1, mx |-> 2, ty |-> <<"str", "str">>],
+   trim_right |-> [mn |-> 1, mx |-> 2, ty |-> <<"str", "str">>],
+   min   |-> [mn |-> 1, mx |-> -1, ty |-> <<"any">>],
+   max   |-> [mn |-> 1, mx |-> -1, ty |-> <<"any">>],
+   int   |-> [mn |-> 1, mx |-> 1,  ty |-> <<"any">>]]
+ExtNames == DOMAIN ExtSigs
+Ext(name) == [t |-> "ext", n |-> name]
+DefaultTrimSet == " \r\n\t"
+
+RECURSIVE ExtremeOf(_, _, _, _)
+ExtremeOf(args, i, best, sign) ==    \* sign = -1: min, 1: max; the first of equivalent values is kept
+  IF i > Len(args) THEN best
+  ELSE ExtremeOf(args, i + 1, IF Cmp(args[i], best) = sign THEN args[i] ELSE best, sign)
+
+StrsOf(ss) == Arr([i \in 1..Len(ss) |-> Str(ss[i])])
+RECURSIVE JoinVals(_, _, _)
+JoinVals(e, sep, i) ==
+  IF i > Len(e) THEN "" ELSE StrCat(IF i > 1 THEN sep ELSE "", StrCat(Display(e[i]), JoinVals(e, sep, i + 1)))
+
+IntOf(o) ==
+  CASE o.t = "int"   -> o
+    [] o.t = "nil"   -> IntV("0")
+    [] o.t = "bool"  -> IntV(IF o.v THEN "1" ELSE "0")
+    [] o.t = "float" -> (LET r == F64TruncToI64(o.v) IN IF r = "" THEN Err("out of range") ELSE IntV(r))
+    [] o.t = "str"   -> (IF o.v = "" THEN IntV("0")
+                         ELSE LET r == I64ParseBase0(o.v) IN IF r = "" THEN Err("strconv.ParseInt") ELSE IntV(r))
+    [] OTHER         -> Err("cannot convert to int")
+
+ExtCallback(name, a) ==
+  LET opt2 == IF Len(a) = 2 THEN a[2].v ELSE "" IN
+  CASE name = "sqrt"  -> Flt(F64Sqrt(a[1].v))
+    [] name = "floor" -> Flt(F64Floor(a[1].v))
+    [] name = "ceil"  -> Flt(F64Ceil(a[1].v))
+    [] name = "trunc" -> Flt(F64Trunc(a[1].v))
+    [] name = "round" -> (LET r == F64RoundToI64(a[1].v) IN IF r = "" THEN Err("out of range") ELSE IntV(r))
+    [] name = "runes" -> (IF Len(a) = 2 /\ a[2].v
+                          THEN LET cps == StrRuneValues(a[1].v) IN Arr([i \in 1..Len(cps) |-> IntN(cps[i])])
+                          ELSE StrsOf(StrRunes(a[1].v)))
+    [] name = "rune_len" -> IntN(Len(StrRuneValues(a[1].v)))
+    [] name = "split" -> StrsOf(StrSplit(a[1].v, opt2))
+    [] name = "join"  -> Str(JoinVals(a[1].e, opt2, 1))
+    [] name = "trim"       -> Str(StrTrim(a[1].v, IF Len(a) = 2 THEN opt2 ELSE DefaultTrimSet, 0))
+    [] name = "trim_left"  -> Str(StrTrim(a[1].v, IF Len(a) = 2 THEN opt2 ELSE DefaultTrimSet, 1))
+    [] name = "trim_right" -> Str(StrTrim(a[1].v, IF Len(a) = 2 THEN opt2 ELSE DefaultTrimSet, 2))
+    [] name = "min"   -> ExtremeOf(a, 2, a[1], -1)
+    [] name = "max"   -> ExtremeOf(a, 2, a[1], 1)
+    [] name = "int"   -> IntOf(a[1])
+    [] OTHER          -> Err("extension outside the modelled fragment")
+
+ApplyExt(name, args0) ==
+  LET sig  == ExtSigs[name]
+      n0   == Len(args0)
+      args == IF sig.mx = -1 /\ n0 > 0 /\ args0[n0].t = "arr"
+              THEN SubSeq(args0, 1, n0 - 1) \o args0[n0].e ELSE args0
+      l    == Len(args)
+      nt   == IF l < Len(sig.ty) THEN l ELSE Len(sig.ty)
+      Conv[i \in 1..l] ==
+        IF i <= nt /\ sig.ty[i] = "float" /\ args[i].t = "int" THEN Flt(F64FromI64(args[i].v)) ELSE args[i]
+  IN IF l < sig.mn \/ (sig.mx # -1 /\ l > sig.mx) THEN Err("wrong number of arguments")
+     ELSE IF \E i \in 1..nt : sig.ty[i] # "any" /\ Conv[i].t # sig.ty[i] THEN Err("wrong type of argument")
+     ELSE ExtCallback(name, Conv)
+
+\* abs and keys: grol functions of the root environment, transcribed
+AbsOf(x) == IF Cmp(x, IntV("0")) = -1 THEN PrefixOp("-", x) ELSE x
+RECURSIVE KeysOf(_)
+KeysOf(m) ==
+  IF VLen(m) < 0 THEN Err("len: not supported")
+  ELSE IF VLen(m) = 0 THEN Arr(<<>>)
+  ELSE LET k == IndexVal(VFirst(m), KeyStr) IN
+       IF IsErr(k) THEN k
+       ELSE LET r == KeysOf(VRest(m)) IN IF IsErr(r) THEN r ELSE InfixOp("+", Arr(<<k>>), r)
+
+
 \* ---------------------------------------------------------------- the evaluator
 RECURSIVE EvalI(_, _)        \* evaluate a node; control values (return/break/continue) bubble up
 RECURSIVE EvalU(_, _)        \* evaluate and unwrap `return` (operand / argument-of-operator position)
@@ -453,8 +545,9 @@ EvalI(n, st0) ==
     [] n.k = "str"   -> R(Str(n.v), st)
     [] n.k = "cmt"   -> R(Nil, st)
     [] n.k = "block" -> EvalBlock(n.s, st)
-    [] n.k = "id"    -> (LET g == GetVar(st, n.n) IN
-                         IF g[1] THEN R(g[2], st) ELSE R(Err("identifier not found"), st))
+    [] n.k = "id"    -> (IF n.n \in ExtNames THEN R(Ext(n.n), st)
+                         ELSE LET g == GetVar(st, n.n) IN
+                              IF g[1] THEN R(g[2], st) ELSE R(Err("identifier not found"), st))
     [] n.k = "brk"   -> R(Ctl("break", Nil), st)
     [] n.k = "cnt"   -> R(Ctl("continue", Nil), st)
     [] n.k = "ret"   -> (IF n.e.k = "none" THEN R(Ctl("return", Nil), st)
@@ -482,6 +575,10 @@ EvalI(n, st0) ==
                          IF IsErr(f.v) THEN f
                          ELSE LET a == EvalList(n.a, 1, <<>>, f.st) IN
                               IF IsErr(a.v) THEN a
+                              ELSE IF f.v.t = "ext" THEN R(ApplyExt(f.v.n, a.v.e), a.st)
+                              ELSE IF f.v.t = "lib" THEN
+                                   (IF Len(a.v.e) # 1 THEN R(Err("wrong number of arguments"), a.st)
+                                    ELSE R(IF f.v.n = "abs" THEN AbsOf(a.v.e[1]) ELSE KeysOf(a.v.e[1]), a.st))
                               ELSE IF f.v.t # "func" THEN R(Err("not a function"), a.st)
                               ELSE Apply(f.v, a.v.e, a.st))
     [] n.k = "arr"   -> EvalList(n.e, 1, <<>>, st)
@@ -506,6 +603,9 @@ EvalI(n, st0) ==
 
 \* ---------------------------------------------------------------- sessions
 RootVars == ("nil" :> Nil) @@ ("null" :> Nil)
+            @@ ("abs" :> [t |-> "lib", n |-> "abs"]) @@ ("keys" :> [t |-> "lib", n |-> "keys"])
+            @@ ("PI" :> Flt("400921fb54442d18")) @@ ("E" :> Flt("4005bf0a8b145769"))
+            @@ ("Inf" :> Flt("7ff0000000000000")) @@ ("NaN" :> Flt("7ff8000000000001"))
 InitState(fuel) ==
   [envs |-> << [vars |-> RootVars, outer |-> 0, fn |-> Nil, key |-> ""] >>,
    cur |-> 1, out |-> <<>>, fuel |-> fuel, depth |-> 0]
